@@ -1415,7 +1415,7 @@ func Count(s, substr []byte) int {
 	if len(substr) == 0 {
 		return utf8.RuneCount(s) + 1
 	}
-	if len(substr) == 1 {
+	if len(substr) == 1 && substr[0] < utf8.RuneSelf {
 		c := substr[0]
 		n := bytealg.Count(s, c)
 		switch c {
